@@ -399,9 +399,12 @@ def run_case(case):
                         continue
                     dn2 = a.disk_names[k2[1]].encode()
                     for (nd_, sub_) in named:
-                        e_ = after[k2].get(sub_) if nd_ == dn2 else None
-                        if e_ is not None and e_[0] == "file":
-                            named_ino.add((k2[1], e_[3]))
+                        if nd_ != dn2:
+                            continue
+                        # the reported file as it is now, as it was before, or under the name it was given when fix gave up
+                        for e_ in (after[k2].get(sub_), before[k2].get(sub_), after[k2].get(sub_ + b".unrecoverable")):
+                            if e_ is not None and e_[0] == "file":
+                                named_ino.add((k2[1], e_[3]))
                 for (cls, k, p, what, x, y) in changed:
                     if cls != "data":
                         continue
